@@ -231,7 +231,7 @@ Proof.
     match goal with |- context [(fix go (l : list ast) (st : state) {struct l} := _) es st'] =>
       destruct ((fix go (l : list ast) (st : state) {struct l} := _) es st') as [[e1'|vs'] s1'] end;
     destruct L as [E1 H1]; cbn [fst snd] in E1, H1; try discriminate E1; inversion E1; subst;
-    split; try reflexivity; exact H1.
+    try destruct (vbounded (VList vs')); split; try reflexivity; exact H1.
   - assert (MAP: forall l st st', R st st' ->
        let go := (fix go (l : list (ast * ast)) (st : state) {struct l} : (eres + list (value * value)) * state :=
            match l with
@@ -268,7 +268,7 @@ Proof.
     match goal with |- context [(fix go (l : list (ast * ast)) (st : state) {struct l} := _) kvs st'] =>
       destruct ((fix go (l : list (ast * ast)) (st : state) {struct l} := _) kvs st') as [[e1'|vs'] s1'] end;
     destruct L as [E1 H1]; cbn [fst snd] in E1, H1; try discriminate E1; inversion E1; subst;
-    split; try reflexivity; exact H1.
+    try destruct (vbounded (VMap vs')); split; try reflexivity; exact H1.
   - assert (ST: forall l last st st', R st st' ->
        let go := (fix go (l : list ast) (last : value) (st : state) {struct l} : eres * state :=
          match l with
